@@ -14,7 +14,8 @@ def run(ctx):
         if not m["sig"].startswith(sf.HANDLER_SIGS) or "request" in m.get("script", "")[:40] and "noversion" in m.get("script", ""):
             ctx.violation(m["sig"], "%s | script: %s (step %d)" % (m["detail"], m.get("script"), m.get("step", -1)), m)
     ctx.coverage = {
-        "states": r.distinct, "transitions": r.generated, "traces_validated_against_impl": summary["scripts"] + summary.get("scripts_lz4", 0),
+        "states": r.distinct, "transitions": r.generated, "traces_validated_against_impl": summary["scripts"] + summary.get("scripts_lz4", 0) + summary.get("scripts_stall", 0),
+        "scripts_with_stalled_reader": summary.get("scripts_stall", 0),
         "scripts_over_lz4": summary.get("scripts_lz4", 0),
         "samples": samples, "peer_steps": summary["steps"],
         "invariants": ["HandlerOnlyIfNegotiated", "HandlerExactlyOnce", "CtxCancelledIffEnded", "DeadMeansNoLive"],
